@@ -1,6 +1,7 @@
 package main
 
 import (
+	"context"
 	"encoding/json"
 	"fmt"
 	"net/http"
@@ -39,6 +40,9 @@ import (
 //	srv-add <k|->                     CNI ADD; iptables call k of it fails
 //	srv-del <j|->                     CNI DEL; iptables call j of it fails
 //	srv-gc                            GC pass with the container dead
+//	srv-restart                       the daemon restarts: a NEW Galaxy instance (new port-mapping handler, the old one's
+//	                                  sockets are gone) over the same NAT table, port files and apiserver runs its start-up
+//	                                  port-mapping sync (setupIPtables)
 //	dump
 
 type srvEnv struct {
@@ -135,6 +139,7 @@ func execSRV(c *ctx, ops []string) *caseResult {
 	var cur []k8s.Port   // as handed out by the last successful ADD
 	random := false
 	holding := false // the pod's sockets are open (successful ADD, no DEL yet)
+	live := false    // the pod runs: ADD succeeded, neither DEL nor GC since
 	var baseline map[string][]nf.Rule
 	var palette []int
 	pickPalette := func(n int) {
@@ -340,6 +345,7 @@ func execSRV(c *ctx, ops []string) *caseResult {
 				}
 				emit(i, "srv-add "+fault+" "+encPorts(ps), outcome+" file="+fileTok())
 				holding = ok
+				live = ok
 				if ok {
 					// held: every handed-out port is bound, the record exists
 					for _, p := range cur {
@@ -369,6 +375,7 @@ func execSRV(c *ctx, ops []string) *caseResult {
 			} else {
 				emit(i, "srv-del "+fault, outcome+" file="+fileTok())
 				holding = false // cleanupPortMapping closes the sockets first, whatever happens afterwards
+				live = false
 				if ok {
 					leftovers("del", true, true, false)
 				} else if fault == "-" {
@@ -400,7 +407,107 @@ func execSRV(c *ctx, ops []string) *caseResult {
 			}
 			emit(i, "srv-gc", "ok file="+fileTok())
 			c.r.Hit("srv:gc")
+			live = false
 			leftovers("gc", false, true, false)
+		case "srv-restart":
+			if w == nil {
+				emit(i, ops[i], "bad-op")
+				continue
+			}
+			if baseline == nil {
+				baseline = fakeT.Dump("nat")
+			}
+			// the old process is gone: its sockets with it
+			h.CloseHostports(k8s.GetPodFullName(podName, podNS))
+			releaseOrphans()
+			// the apiserver knows the pod's ip while it runs
+			if pod, err := client.CoreV1().Pods(podNS).Get(context.TODO(), podName, metav1.GetOptions{}); err == nil {
+				pod.Status.PodIP = ""
+				if live {
+					pod.Status.PodIP = "10.9.8.7"
+				}
+				client.CoreV1().Pods(podNS).UpdateStatus(context.TODO(), pod, metav1.UpdateOptions{})
+				client.CoreV1().Pods(podNS).Update(context.TODO(), pod, metav1.UpdateOptions{})
+			}
+			before := fakeT.Dump("nat")
+			h = portmapping.VerifNew(fakeT)
+			keepAlive = append(keepAlive, h)
+			w2, err := srvG.env.NewWorld(cni.Config{Nets: []cni.NetSpec{{Name: "n1", Type: "gxp1"}}, Default: []string{"n1"}}, nil)
+			if err != nil {
+				emit(i, "srv-world", "cannot build a galaxy instance: "+err.Error())
+				res.violations = m.v
+				return res
+			}
+			w = w2
+			w.G.SetClient(client)
+			w.G.VerifSetPortMapping(h)
+			fakeT.ResetCalls()
+			var serr error
+			out := hx.Guard(30*time.Second, func() { serr = w.G.VerifStartPortMapping() })
+			if out != "ok" {
+				m.add("panic-or-hang", "start-up sync: "+out)
+				emit(i, ops[i], out)
+				res.violations = m.v
+				return res
+			}
+			if serr == nil {
+				// setupIPtables leaves a goroutine behind which runs EnsureBasicRule at once (and every minute): let its
+				// first round finish so that it cannot interleave with the next operation
+				for k := 0; k < 400 && fakeT.Calls() < 8; k++ {
+					time.Sleep(5 * time.Millisecond)
+				}
+			}
+			fakeT.ResetCalls()
+			ports := "-"
+			if live {
+				ports = encPorts(cur)
+				holding = true
+			}
+			ann := "0"
+			if random {
+				ann = "1"
+			}
+			outcome := "ok"
+			if serr != nil {
+				outcome = "err"
+			}
+			emit(i, fmt.Sprintf("srv-restart %s %s %s %s", nf.EncTok(podName), nf.EncTok(podNS), ann, ports), outcome)
+			c.r.Hit("srv:restart:live=" + strconv.FormatBool(live))
+			after := fakeT.Dump("nat")
+			if serr != nil {
+				if syncBlocked(before) {
+					// a foreign chain refers to a stale KUBE-HP chain: the real -X refuses, outside sync_all_exact's hypothesis
+					c.r.Hit("srv:restart:blocked-by-foreign-ref")
+				} else {
+					m.add("restart-sync-fails", "the start-up port-mapping sync failed: "+serr.Error())
+				}
+			} else if live {
+				// after the restart the table is what the per-pod setup of the live pod gave: same chains (names!), same
+				// rules; the later DEL works from the port file the ADD wrote
+				for _, ch := range hpChains(before) {
+					if a, ok := after[ch]; !ok {
+						m.add("restart-renames-chain", fmt.Sprintf("the pod's chain %s is gone after the restart (chains now: %v)", ch, hpChains(after)))
+					} else if !sameRules(a, before[ch]) {
+						m.add("restart-changes-chain", fmt.Sprintf("the restart changed chain %s of the running pod", ch))
+					}
+				}
+				for _, ch := range hpChains(after) {
+					if _, ok := before[ch]; !ok {
+						m.add("restart-renames-chain", fmt.Sprintf("the restart created chain %s which the per-pod setup never made", ch))
+					}
+				}
+				if !sameRules(after[chHostports], before[chHostports]) {
+					m.add("restart-changes-rule", fmt.Sprintf("KUBE-HOSTPORTS after the restart %q, before %q",
+						nf.EncRules(after[chHostports]), nf.EncRules(before[chHostports])))
+				}
+				for _, p := range cur {
+					if sk := (sock{strings.ToLower(p.Protocol), int(p.HostPort)}); !isBound(sk) {
+						m.add("restart-port-not-held", fmt.Sprintf("after the restart host port %s of the running pod is not bound", sk))
+					}
+				}
+			} else {
+				leftovers("restart", true, false, false)
+			}
 		default:
 			emit(i, ops[i], "bad-op")
 		}
@@ -426,7 +533,7 @@ func srvPodSpec(n int, hostIP bool) string {
 // EnsureRule) and of the cleanup (each EnsureChain, each DeleteRule, restore) as fault position; i selects the scenario.
 func genSRV(c *ctx, i int) []string {
 	rng := c.e.Rng
-	n := 1 + i%3
+	n := 1 + (i/6)%3
 	ops := []string{"case srv"}
 	if i%2 == 0 {
 		ops = append(ops, loadLines(map[string][]nf.Rule{"PREROUTING": nil, "INPUT": nil, "OUTPUT": nil, "POSTROUTING": nil})...)
@@ -436,15 +543,15 @@ func genSRV(c *ctx, i int) []string {
 	if i%11 == 10 {
 		// random port mapping (annotation present, host port 0): no fault, the handed-out ports come from the port file
 		ops = append(ops, fmt.Sprintf("srv-pod rnd-%d ns%d 1 0:TCP:80:-,0:UDP:53:-,P0:TCP:8080:-", i%4, i%2), "srv-sync", "dump",
-			"srv-add -", "dump", "srv-del -", "dump", "srv-add -", "dump", "srv-gc", "dump")
+			"srv-add -", "dump", "srv-restart", "dump", "srv-del -", "dump", "srv-add -", "dump", "srv-gc", "dump")
 		return ops
 	}
 	ops = append(ops, fmt.Sprintf("srv-pod web-%d ns%d 0 %s", i%4, i%2, srvPodSpec(n, i%5 == 0)), "srv-sync", "dump")
-	k := (i / 3) % (n + 2) // setup: 0..n = fault positions, n+1 = beyond the last call
-	scen := (i / 3 / (n + 2)) % 4
+	k := (i / 18) % (n + 2) // setup: 0..n = fault positions, n+1 = beyond the last call
+	scen := i % 6
 	// cleanup: EnsureChain x n, DeleteRule x n, restore: 0..2n = fault positions, 2n+1 = beyond the last call
-	kd := (i / 3) % (2*n + 2)
-	if k > n && scen >= 2 {
+	kd := (i / 18) % (2*n + 2)
+	if k > n && (scen == 2 || scen == 3) {
 		scen = 0 // no fault happens: a second ADD without the kubelet's DEL in between is not a real history
 	}
 	switch scen {
@@ -455,6 +562,11 @@ func genSRV(c *ctx, i int) []string {
 	case 2: // failed ADD, the GC collects before the kubelet's DEL arrives
 		ops = append(ops, fmt.Sprintf("srv-add %d", k), "dump", "srv-gc", "dump", "srv-del -", "dump", "srv-add -", "dump",
 			"srv-gc", "dump", "srv-del -", "dump")
+	case 4: // the daemon restarts while the pod runs; the DEL comes afterwards
+		ops = append(ops, "srv-add -", "dump", "srv-restart", "dump", "srv-del -", "dump", "srv-restart", "dump")
+	case 5: // restart after a failed ADD, then the pod comes up, two restarts, the GC collects
+		ops = append(ops, fmt.Sprintf("srv-add %d", k), "dump", "srv-restart", "dump", "srv-del -", "srv-add -", "dump",
+			"srv-restart", "dump", "srv-restart", "dump", "srv-gc", "dump", "srv-del -", "dump")
 	default: // failed ADD immediately retried, then a failing DEL and the GC
 		ops = append(ops, fmt.Sprintf("srv-add %d", k), "dump", "srv-add -", "dump", fmt.Sprintf("srv-del %d", kd), "dump",
 			"srv-gc", "dump", "srv-del -", "dump")
